@@ -589,6 +589,44 @@ def check(rep, tier, seed):
                     rep.violation({"check": "replay-on-sanitized-build", "workload": mname,
                                    "mode": sg.get("mode") or sg.get("kind") or sg.get("check")},
                                   {"workload_signature": sg, "witness": wit})
+    # ---- deep DATA (built by a loop, not read): procedures that walk a datum recursively in C -----------------------------
+    shapes = {"car-nested-list": "(let lp ((i 0) (x '())) (if (< i %d) (lp (+ i 1) (list x)) x))",
+              "nested-vector": "(let lp ((i 0) (x '())) (if (< i %d) (lp (+ i 1) (vector x)) x))",
+              "long-list": "(let lp ((i 0) (x '())) (if (< i %d) (lp (+ i 1) (cons i x)) x))"}
+    walkers = [("write", "(let ((p (open-output-string))) (write d p) (string-length (get-output-string p)))"),
+               ("display", "(let ((p (open-output-string))) (display d p) (string-length (get-output-string p)))"),
+               ("write-shared", "(let ((p (open-output-string))) (write-shared d p) (string-length (get-output-string p)))"),
+               ("write-simple", "(let ((p (open-output-string))) (write-simple d p) (string-length (get-output-string p)))"),
+               ("equal?", "(equal? d d2)"), ("eqv?", "(eqv? d d2)"), ("list-copy", "(pair? (list-copy d))"), ("length", "(length d)"),
+               ("list?", "(list? d)"), ("append", "(pair? (append d '(1)))"), ("vector", "(vector-length (vector d d))"),
+               ("apply", "(apply (lambda args (length args)) d)"), ("map", "(length (map (lambda (x) x) (if (list? d) d (list d))))"),
+               ("eval-quote", "(pair? (eval (list 'quote d) (scheme-report-environment 5)))"),
+               ("list->vector", "(vector-length (list->vector (if (list? d) d (list d))))"),
+               ("string-append-apply", "(string-length (apply string-append (map (lambda (x) \"a\") (if (list? d) d (list d)))))"),
+               ("gc", "(begin (let lp ((i 0) (a '())) (if (< i 200000) (lp (+ i 1) (cons i a)) (length a))))")]
+    ddepths = (10 ** 5, 10 ** 6) if tier == "quick" else (10 ** 4, 10 ** 5, 10 ** 6)
+    djobs = []
+    for sname, sexpr in shapes.items():
+        for depth in ddepths:
+            for wname, wexpr in walkers:
+                djobs.append((sname, depth, wname, wexpr, "(begin (define d %s) (define d2 %s) 'ready)" % (sexpr % depth, sexpr % depth)))
+
+    def run_dd(t):
+        sname, depth, wname, wexpr, setup = t
+        recs, fatal, p0 = run_items(bh, exe_h, d, "dd-%s-%d-%s" % (sname, depth, wname), [imports, setup], [("eval", wexpr)], timeout=300)
+        return t, recs, fatal
+
+    for (sname, depth, wname, wexpr, setup), recs, fatal in R.pmap(run_dd, djobs):
+        rep.case(("deep-data", sname, depth, wname))
+        o = (recs.get(0) or {}).get("outcome")
+        outcomes["deep-data:" + ("none" if o is None else o.split(" ")[0])] = outcomes.get("deep-data:" + ("none" if o is None else o.split(" ")[0]), 0) + 1
+        for ev in fatal:
+            if ev["how"] == "timeout":
+                rep.inconc("watchdog", "deep-data %s %d %s" % (sname, depth, wname))
+                continue
+            rep.violation({"check": "process-died", "family": "deep-data", "how": ev["how"], "shape": sname, "op": wname,
+                           "depth_class": ">=1e5" if depth >= 10 ** 5 else "<1e5"},
+                          {"shape": sname, "depth": depth, "op": wexpr, "setup": setup[:200], "stderr": ev["stderr"][-500:]})
     rep.extra.update(outcomes=outcomes, probe_evaluations=probes, r7rs_names=len(r7names), vm_primitives=len(ops),
                      pool_values=len(POOL), item_files=len(files),
                      sanitizer="ASan + in-heap red zones (SEXP_GC_PAD=32, poisoned free chunks) + UBSan bounds,vla-bound,return,unreachable,null")
